@@ -37,14 +37,20 @@ def run_components(run, gens, tier, seed, replay, exe, timeout_case=60, label=""
         kinds[k] = kinds.get(k, 0) + 1
         run.count((c.name.split("-", 1)[-1], tuple(c.cmds)))
         dis = []
-        for i, ml in enumerate(mo["lines"]):
-            if ml.startswith("SKIP"):
-                continue
-            il = io["lines"][i] if i < len(io["lines"]) else "<missing>"
-            if il != ml:
-                dis.append({"cmd": c.cmds[i][:300] if i < len(c.cmds) else "?", "impl": il[:600], "model": ml[:600]})
+        if hasattr(owner[c.name], "compare_lines"):
+            dis = owner[c.name].compare_lines(c, io, mo)       # the generator's own notion of "model and implementation agree"
+        else:
+            for i, ml in enumerate(mo["lines"]):
+                if ml.startswith("SKIP"):
+                    continue
+                il = io["lines"][i] if i < len(io["lines"]) else "<missing>"
+                if il != ml:
+                    dis.append({"cmd": c.cmds[i][:300] if i < len(c.cmds) else "?", "impl": il[:600], "model": ml[:600]})
         try:
-            fails = owner[c.name].evaluate_property(c, io)
+            if hasattr(owner[c.name], "evaluate_property_m"):
+                fails = owner[c.name].evaluate_property_m(c, io, mo)
+            else:
+                fails = owner[c.name].evaluate_property(c, io)
         except Exception as ex:
             fails = ["evaluate_property raised %r (implementation output malformed: %s)" % (ex, io["status"])]
         in_scope = getattr(owner[c.name], "sanitizer_scope", lambda case: True)
